@@ -122,6 +122,7 @@ func rewriteTimeNow(name string, src []byte) ([]byte, bool, error) {
 		return nil, false, err
 	}
 	timeName := ""
+	hookName := ""
 	for _, imp := range f.Imports {
 		if imp.Path.Value == `"time"` {
 			timeName = "time"
@@ -130,7 +131,11 @@ func rewriteTimeNow(name string, src []byte) ([]byte, bool, error) {
 			}
 		}
 		if imp.Path.Value == `"github.com/chrislusf/seaweedfs/weed/verif"` {
-			return nil, false, nil // already uses the hook package explicitly; leave alone
+			// the file already imports the hook package (yield points): reuse that name
+			hookName = "verif"
+			if imp.Name != nil {
+				hookName = imp.Name.Name
+			}
 		}
 	}
 	if timeName == "" || timeName == "_" || timeName == "." {
@@ -159,11 +164,14 @@ func rewriteTimeNow(name string, src []byte) ([]byte, bool, error) {
 	pkgEnd := fset.Position(f.Name.End()).Offset
 	last := 0
 	out.Write(src[:pkgEnd])
-	out.WriteString(`; import verifhook "github.com/chrislusf/seaweedfs/weed/verif"`)
+	if hookName == "" {
+		hookName = "verifhook"
+		out.WriteString(`; import verifhook "github.com/chrislusf/seaweedfs/weed/verif"`)
+	}
 	last = pkgEnd
 	for _, s := range spans {
 		out.Write(src[last:s.from])
-		out.WriteString("verifhook.Now")
+		out.WriteString(hookName + ".Now")
 		last = s.to
 	}
 	out.Write(src[last:])
